@@ -82,6 +82,7 @@ CHECKS["C07"] = {
         J("duplicates", "c07", "TestDuplicateNames", 500, 5000, 1),
         J("namedcreationfails", "c07", "TestNamedCreationFails", 300, 3000, 1),
         J("lazyafterother", "c07", "TestLazyAfterOtherContainer", 600, 10000, 4),
+        J("namedcycledecorated", "c07", "TestStaticNamedCycleDecorated", None, None),
     ],
     "assumptions": [
         "named points are generated on single-valued fields only (the property speaks about single-valued points)",
